@@ -139,15 +139,25 @@ func c03Wrap(r *Rng, snippet string, isBlockSnippet bool) c03Route {
 			nfile++
 			name := fmt.Sprintf("/inc%d.tpl", nfile)
 			rt.files[name] = cur
-			cur = "{% include \"" + name + "\" %}"
-			rt.desc = append(rt.desc, "static-include")
+			if r.Chance(40) {
+				cur = "{% include \"" + name + "\" if_exists %}" // the file exists: if_exists must not hide what is wrong inside it
+				rt.desc = append(rt.desc, "static-include-if_exists")
+			} else {
+				cur = "{% include \"" + name + "\" %}"
+				rt.desc = append(rt.desc, "static-include")
+			}
 		case 13:
 			nfile++
 			name := fmt.Sprintf("/lazy%d.tpl", nfile)
 			rt.files[name] = cur
-			cur = "{% include (\"" + name + "\") %}"
+			if r.Chance(40) {
+				cur = "{% include (\"" + name + "\") if_exists %}"
+				rt.desc = append(rt.desc, "lazy-include-if_exists")
+			} else {
+				cur = "{% include (\"" + name + "\") %}"
+				rt.desc = append(rt.desc, "lazy-include")
+			}
 			rt.lazy = true
-			rt.desc = append(rt.desc, "lazy-include")
 		case 14:
 			nfile++
 			name := fmt.Sprintf("/ssi%d.tpl", nfile)
